@@ -90,6 +90,56 @@ theorem cache_transparent_total {G : Grammar} {N : Nat → Bool} {rank : Nat →
     rw [← h1]; exact this evs st hp
   rw [h2]; exact (hreq' s e i hmem).2
 
+/-- A request that is ABANDONED because the recursion depth ran out (`oof`: Python's RecursionError, or any other
+exception that is not ParseError and unwinds the whole request) still leaves a sound cache state: nothing partial is
+published (entries are stored after the complete computation only). -/
+theorem aborted_request_keeps_caches_sound (G : Grammar) (repOf : Nat → Option (Nat × Option Nat × Expr)) (hG : GCidsOk repOf G)
+    (f : Nat) (s : Src) (e : Expr) (he : CidsOk repOf e) (i : Nat) (st : LState) (hinv : WInv (GoodVal G repOf) st) :
+    WInv (GoodVal G repOf) (lparseC lruOps G f s e i st).2 :=
+  (lparseC_sand lruOps G repOf _ (lruOps_sound' _) hG f s e he i st hinv).1
+
+/-- **Histories with aborted requests**: as `cache_transparent`, but the history may contain any number of requests that
+run out of recursion depth (no side condition on them at all).  Every request that does complete returns the cache-free
+answer - whatever was attempted, and abandoned half-way, before it. -/
+theorem cache_transparent_with_aborts (G : Grammar) (repOf : Nat → Option (Nat × Option Nat × Expr)) (hG : GCidsOk repOf G)
+    (f : Nat) (evs : List Ev) (st : LState) (hinv : WInv (GoodVal G repOf) st)
+    (hreq : ∀ s e i, Ev.req s e i ∈ evs → CidsOk repOf e) :
+    ∀ p ∈ runHistory G f st evs, ∃ s e i, p.1 = Ev.req s e i ∧ (lparse G f s e i ≠ .oof → p.2 = lparse G f s e i) := by
+  induction evs generalizing st with
+  | nil => intro p hp; simp [runHistory] at hp
+  | cons ev evs ih =>
+    intro p hp
+    have hreq' : ∀ s e i, Ev.req s e i ∈ evs → CidsOk repOf e :=
+      fun s e i h => hreq s e i (List.mem_cons_of_mem _ h)
+    cases ev with
+    | req s e i =>
+      have he := hreq s e i List.mem_cons_self
+      have h2 := aborted_request_keeps_caches_sound G repOf hG f s e he i st hinv
+      simp only [runHistory, stepEv] at hp
+      rcases List.mem_cons.mp hp with hp | hp
+      · refine ⟨s, e, i, by rw [hp], ?_⟩
+        intro hne
+        rw [hp]
+        exact (request_transparent G repOf hG f s e he i st hinv hne).1
+      · exact ih _ h2 hreq' p hp
+    | clear =>
+      simp only [runHistory, stepEv] at hp
+      exact ih _ (winv_clearAll hinv) hreq' p hp
+    | setLimit cid l =>
+      simp only [runHistory, stepEv] at hp
+      exact ih _ (winv_setLimit hinv cid l) hreq' p hp
+    | evict cid keep =>
+      simp only [runHistory, stepEv] at hp
+      exact ih _ (winv_evictSome hinv cid keep) hreq' p hp
+
+/-- non-vacuity: a request abandoned at depth 3 followed by the same request with enough depth -/
+example :
+    let G : Grammar := #[⟨"r", some (.rep 0 0 none (.rep 1 1 (some 2) (.lit [97] false))), none⟩]
+    let st0 : LState := ⟨0, fun _ => PCache.new (some 1) 0⟩
+    lparse G 3 [97, 97, 97] (.ref 0) 0 = .oof ∧
+    (lparseC lruOps G 10 [97, 97, 97] (.ref 0) 0 (lparseC lruOps G 3 [97, 97, 97] (.ref 0) 0 st0).2).1
+      = lparse G 10 [97, 97, 97] (.ref 0) 0 := by decide
+
 /-- empty caches, with any limits, are a sound starting state -/
 theorem fresh_caches_sound (G : Grammar) (repOf : Nat → Option (Nat × Option Nat × Expr)) (g : Nat) (limit : Nat → Option Nat) :
     WInv (GoodVal G repOf) ⟨g, fun cid => PCache.new (limit cid) g⟩ :=
